@@ -79,8 +79,8 @@ def one(ctx, pts, kind, queries, family):
             ctx.tag('oracle-nonfinite')
     # cache contents must equal fresh values
     for key, val in shared.items():
-        if key == 'tss':
-            continue
+        if not (isinstance(key, tuple) and len(key) == 2):
+            continue        # 'tss' and whatever else an implementation keeps there; only (left, right) entries are specified
         a, b = key
         pt = pts[a:b + 1]
         want = 0 if len(pt) <= 2 else ev.compute_partial_cost(pt[:, 1], lf.linear_fit_transform_points(pt), cost)
